@@ -543,7 +543,7 @@ fn scenario(sub: &mut Rng, st: &mut St, ctx: &mut Ctx, steps: usize, with_close:
 				let r = net.send(&pn, &pc, amt, 70 + sub.below(30) as u32);
 				op = format!("send{}hops:{}", pn.len() - 1, if r.is_ok() { "ok" } else { "refused" });
 			},
-			4 | 5 | 6 | 7 | 8 | 9 | 20 | 21 | 22 | 23 | 24 | 25 => { let q: Vec<(usize, usize)> = net.q.iter().filter(|(_, v)| !v.is_empty()).map(|(k, _)| *k).collect(); if q.is_empty() { op = "deliver:none".into(); } else { let (i, j) = *sub.pick(&q); let k = net.deliver(i, j); op = format!("deliver:{}", k.unwrap_or("-")); } },
+			4 | 5 | 6 | 7 | 8 | 9 | 20 | 21 | 22 | 23 | 24 | 25 => { let q: Vec<(usize, usize)> = net.q.iter().filter(|(_, v)| !v.is_empty()).map(|(k, _)| *k).collect(); if q.is_empty() { for i in 0..3 { if net.nodes[i].node.needs_pending_htlc_processing() { net.forward(i); } net.process_events(i); } op = "deliver:none->forward+events".into(); } else { let (i, j) = *sub.pick(&q); let k = net.deliver(i, j); op = format!("deliver:{}", k.unwrap_or("-")); } },
 			10 | 11 => { let i = sub.below(3) as usize; net.forward(i); net.process_events(i); op = "forward+events".into(); },
 			12 | 13 => {
 				let cands: Vec<usize> = (0..net.pays.len()).filter(|p| net.claimable[net.pays[*p].to].iter().any(|c| c.0 == net.pays[*p].hash)).collect();
@@ -554,14 +554,14 @@ fn scenario(sub: &mut Rng, st: &mut St, ctx: &mut Ctx, steps: usize, with_close:
 				}
 			},
 			14 => {
-				let i = sub.below(3) as usize; let m = !net.in_progress[i];
+				let i = sub.below(3) as usize; let m = !net.in_progress[i] && sub.chance(1, 2);
 				if !m { complete_all(&mut net, i); }
 				net.set_mode(i, m); op = format!("persist-mode:{}", if m { "InProgress" } else { "Completed" });
 			},
 			15 | 16 => {
-				let i = sub.below(3) as usize; let c = if i == 0 { c0 } else if i == 2 { c1 } else if sub.chance(1, 2) { c0 } else { c1 };
-				let p = net.pending_updates(i, c);
-				if p.is_empty() { op = "complete:none".into(); } else { let id = *sub.pick(&p); net.complete(i, c, id); op = "complete".into(); }
+				let mut all: Vec<(usize, usize, u64)> = vec![];
+				for i in 0..3 { for c in [c0, c1] { if net.chans[c].0 == i || net.chans[c].1 == i { for id in net.pending_updates(i, c) { all.push((i, c, id)); } } } }
+				if all.is_empty() { op = "complete:none".into(); } else { let (i, c, id) = *sub.pick(&all); net.complete(i, c, id); op = "complete".into(); }
 			},
 			17 => {
 				let (a, b) = if sub.chance(1, 2) { (0, 1) } else { (1, 2) };
@@ -620,6 +620,14 @@ fn scenario(sub: &mut Rng, st: &mut St, ctx: &mut Ctx, steps: usize, with_close:
 			st.epoch += 1;
 			ctx.bump(&format!("op:block:txs{}", txs.len().min(3)));
 			check_all(&net, st, ctx, "block");
+			if blk == 6 {
+				// jump past the CLTV expiries of whatever was in flight: timeout claims, the other channel may go on chain too
+				for i in 0..3 { connect_blocks(&net.nodes[i], 60 + sub.below(40) as u32); }
+				net.pump_all(); for i in 0..3 { net.process_events(i); }
+				st.epoch += 1;
+				ctx.bump("op:blocks-jump");
+				check_all(&net, st, ctx, "blocks-jump");
+			}
 			if blk == 2 && sub.chance(1, 2) { let i = if sub.chance(1, 2) { closer } else { peer }; reload_check(&mut net, i, st, ctx); st.epoch += 1; check_all(&net, st, ctx, "reload-after-close"); ctx.bump("op:reload-after-close"); }
 		}
 	}
